@@ -19,7 +19,8 @@ VARS = ["PATH", "MANPATH", "LD_LIBRARY_PATH", "FOO"]
 # ------------------------------------------------------------------ generators
 
 REF_PIECES = ["${OTHER}", "${HOME}", "${UNDEF}", "$?{OTHER}", "$?{UNDEF}", "${UNDEF-/dflt}", "${OTHER-/dflt}",
-              "$?{UNDEF-/d2}", "/lit", "/x y", "+", "${UNDEF2}", "$?{UNDEF2}"]
+              "$?{UNDEF-/d2}", "/lit", "/x y", "+", "${UNDEF2}", "$?{UNDEF2}",
+              "${EMPTY}", "$?{EMPTY}", "${EMPTY-/dflt}"]     # EMPTY is defined with the empty string as its value
 
 
 def gen_ref_value(rng):
@@ -49,7 +50,7 @@ def gen_prepend(rng):
     pool = [p for p in POOL if d not in p] or ["x"]
     var = rng.choice(VARS)
     old = gen_old(rng, d, pool)
-    env = {"HOME": "/root", "OTHER": "/o/ther"}
+    env = {"HOME": "/root", "OTHER": "/o/ther", "EMPTY": ""}
     if old is not None:
         env[var] = old
     r = rng.random()
@@ -62,7 +63,8 @@ def gen_prepend(rng):
     elif r < 0.94:
         form = rng.choice(["${OTHER}/bin", "${UNDEF}/bin", "$?{UNDEF}/bin", "$?{OTHER}/lib",
                            "${UNDEF-/dflt}/x", "${OTHER-/dflt}/x", "$?{UNDEF-/d2}", "${UNDEF-}",
-                           "$OTHER/x", "${OTHER", "$?x{OTHER}", "${HOME}/${OTHER}/z"])
+                           "$OTHER/x", "${OTHER", "$?x{OTHER}", "${HOME}/${OTHER}/z",
+                           "${EMPTY}/bin", "$?{EMPTY}/e", "${EMPTY-/dflt}/x"])
         v = form if rng.random() < 0.4 else gen_ref_value(rng)
         shape = "dollar"
     else:
@@ -87,11 +89,12 @@ def gen_prepend(rng):
 
 def gen_set(rng):
     var = rng.choice(VARS)
-    env = {"HOME": "/root", "OTHER": "/o/ther"}
+    env = {"HOME": "/root", "OTHER": "/o/ther", "EMPTY": ""}
     if rng.random() < 0.5:
         env[var] = rng.choice(["preexisting", "", "/a:/b"])
     v = gen_ref_value(rng) if rng.random() < 0.5 else rng.choice(["plain", "/opt/p 1", "${OTHER}/bin", "${UNDEF}/bin", "$?{UNDEF}/bin", "${UNDEF-dflt}",
-                    "a${HOME}b${OTHER}c", "", "${OTHER", "x${}y", "$?{OTHER}", "${HOME}${UNDEF2}"])
+                    "a${HOME}b${OTHER}c", "", "${OTHER", "x${}y", "$?{OTHER}", "${HOME}${UNDEF2}",
+                    "${EMPTY}/s", "$?{EMPTY}/s", "${EMPTY-dflt}"])
     return {"op": "set", "fwd": rng.random() < 0.65, "var": var, "value": v, "env": env, "shape": "set"}
 
 
